@@ -32,8 +32,8 @@ theorem transact_books (cfg : Cfg K) (comm : K → K → K) (s s' : SecData K) (
     subst ha; subst hs
     refine ⟨p, b, hp, hb, rfl, ?_, ?_, rfl, rfl, rfl, rfl⟩ <;> simp
 
-example : ∃ s' adj, secTransactCore Ex.cfg Ex.comm Ex.sec (-4) none = .ok (s', some adj) := by
-  norm_num [secTransactCore, secOutlay, isZero, absA, Ex.cfg, Ex.sec, Except.bind, pure, Except.pure]
+example : ∃ s' adj, secTransactCore LEx.cfg LEx.comm LEx.sec (-4) none = .ok (s', some adj) := by
+  norm_num [secTransactCore, secOutlay, isZero, absA, LEx.cfg, LEx.sec, Except.bind, pure, Except.pure]
 
 /-- The same with a custom execution price `cp`: the "spread" is the price difference `q·(cp − p)·mult`
     and the commission is evaluated at `cp·mult`. -/
@@ -65,27 +65,27 @@ theorem transact_books_custom (cfg : Cfg K) (comm : K → K → K) (s s' : SecDa
     subst ha; subst hs
     refine ⟨p, hp, hbs, rfl, ?_, ?_, rfl, rfl, rfl, rfl⟩ <;> simp
 
-example : ∃ s' adj, secTransactCore Ex.cfg Ex.comm Ex.sec 5 (some 51) = .ok (s', some adj) := by
-  norm_num [secTransactCore, secOutlay, isZero, absA, Ex.cfg, Ex.sec, Except.bind, pure, Except.pure]
+example : ∃ s' adj, secTransactCore LEx.cfg LEx.comm LEx.sec 5 (some 51) = .ok (s', some adj) := by
+  norm_num [secTransactCore, secOutlay, isZero, absA, LEx.cfg, LEx.sec, Except.bind, pure, Except.pure]
 
 /-- A quantity below the tolerance is not traded: no state change, no adjustment (hence no fee). -/
 theorem transact_zero_noop (cfg : Cfg K) (comm : K → K → K) (s : SecData K) (q : K) (custom : Option K)
     (hq : |q| < cfg.tol) : secTransactCore cfg comm s q custom = .ok (s, none) := by
   unfold secTransactCore
-  rw [(isZero_iff cfg.tol q).mpr hq]; rfl
+  rw [(isZero_iff_L cfg.tol q).mpr hq]; rfl
 
-example : |(1/10000000 : Rat)| < Ex.cfg.tol := by norm_num [Ex.cfg]
+example : |(1/10000000 : Rat)| < LEx.cfg.tol := by norm_num [LEx.cfg]
 
 /-- Conversely an adjustment (and hence a fee) is produced only by a quantity at or above the tolerance,
     and then exactly one (the result type holds at most one). -/
 theorem transact_adj_iff (cfg : Cfg K) (comm : K → K → K) (s s' : SecData K) (q : K) (custom : Option K)
     (oa : Option (Adj K)) (h : secTransactCore cfg comm s q custom = .ok (s', oa)) :
     oa.isSome = true ↔ cfg.tol ≤ |q| := by
-  rw [← isZero_false_iff]
+  rw [← isZero_false_iff_L]
   rcases secTransactCore_ok h with ⟨hz, _, rfl⟩ | ⟨hz, _, _, _, _, _, _, rfl⟩ <;> simp [hz]
 
-example : ∃ s' oa, secTransactCore Ex.cfg Ex.comm Ex.sec (-4) none = .ok (s', oa) := by
-  norm_num [secTransactCore, secOutlay, isZero, absA, Ex.cfg, Ex.sec, Except.bind, pure, Except.pure]
+example : ∃ s' oa, secTransactCore LEx.cfg LEx.comm LEx.sec (-4) none = .ok (s', oa) := by
+  norm_num [secTransactCore, secOutlay, isZero, absA, LEx.cfg, LEx.sec, Except.bind, pure, Except.pure]
 
 /-- `StrategyBase.adjust`: the amount goes to capital, the fee to `last_fee`, the amount to `net_flows`
     exactly when it is a flow — and no other field changes. -/
@@ -98,8 +98,8 @@ theorem adjust_books (sd : StratData K) (a : Adj K) :
                             netFlows := (sd.adjust a).netFlows } := by
   refine ⟨rfl, rfl, ?_, ?_, rfl⟩ <;> intro h <;> simp [StratData.adjust, h]
 
-example : (Ex.strat.adjust { amount := 25, fee := 1, flow := true }).netFlows = 75 := by
-  norm_num [StratData.adjust, Ex.strat]
+example : (LEx.strat.adjust { amount := 25, fee := 1, flow := true }).netFlows = 75 := by
+  norm_num [StratData.adjust, LEx.strat]
 
 /-- The sizing probes of `allocate` (`secOutlay`) return numbers only: the security that comes out of
     `secAllocate` is the refreshed security, either untouched (nothing to trade) or put through exactly one
@@ -121,9 +121,9 @@ theorem probe_pure (cfg : Cfg K) (pn : Option Nat) (comm : K → K → K) (s s' 
     exact ⟨h3, h4.1.symm, h4.2.symm⟩
   | some q => right; exact ⟨q, h3, h4⟩
 
-example : ∃ s' oa, secAllocate Ex.cfg (some 1) (fun _ _ => 0) Ex.sec (-300) = .ok (s', oa) := by
+example : ∃ s' oa, secAllocate LEx.cfg (some 1) (fun _ _ => 0) LEx.sec (-300) = .ok (s', oa) := by
   norm_num [secAllocate, secRefresh, secUpdate, secBaseUpdate, secEarly, allocQuantity, allocQ0, eqA, secTransactCore, secOutlay, isZero, absA,
-    Ex.cfg, Ex.sec, Except.bind, bind, pure, Except.pure]
+    LEx.cfg, LEx.sec, Except.bind, bind, pure, Except.pure]
 
 /-- `stratDateChange`: on a genuinely new date (`now = some n`, `n ≠ d`) the flow and fee accumulators are
     zeroed and `last_price / last_value / last_notl` are captured from the closing state of the previous
@@ -143,7 +143,7 @@ theorem accumulators_reset (d : Nat) (sd : StratData K) :
   · intro hn
     unfold stratDateChange; simp [hn]
 
-example : Ex.strat.now = some 1 ∧ (1 : Nat) ≠ 2 := by decide
+example : LEx.strat.now = some 1 ∧ (1 : Nat) ≠ 2 := by decide
 
 /-- The security-side accumulators: `bidoffer_paid` is zeroed exactly on a date change of a security with
     bid/offer data, and the outlay accumulator is always zero after the flush into the date's row. -/
@@ -161,10 +161,10 @@ theorem sec_accumulators_reset (d : Nat) (s : SecData K) :
     · rfl
     · rename_i h
       have h' : eqA s.outlayAcc 0 = true := by simpa using h
-      exact (eqA_iff _ _).mp h'
+      exact (eqA_iff_L _ _).mp h'
   · unfold secDateChange; split <;> rfl
 
-example : Ex.sec.now ≠ some 2 ∧ Ex.sec.bidofferSet = true := by decide
+example : LEx.sec.now ≠ some 2 ∧ LEx.sec.bidofferSet = true := by decide
 
 /-- Allocating `amount` to a sub-strategy: the parent receives exactly one adjustment, `−amount` with no
     fee and *not* a flow; the sub-strategy books `+amount` as a flow, and on top of that exactly the
@@ -190,11 +190,11 @@ theorem allocNode_books (cfg : Cfg K) (pn : Option Nat) (comm : K → K → K) (
   rw [hsd, foldl_adjust_nonflow L _ hnf]
   simp [StratData.adjust]
 
-example : ∃ n' adjs, allocNode Ex.cfg (some 1) Ex.comm (-300) (.strat Ex.sub [.sec { Ex.sec with weight := 1 }])
+example : ∃ n' adjs, allocNode LEx.cfg (some 1) LEx.comm (-300) (.strat LEx.sub [.sec { LEx.sec with weight := 1 }])
     = .ok (n', adjs) := by
   norm_num [allocNode, allocKids, secAllocate, secRefresh, secUpdate, secBaseUpdate, secEarly, allocQuantity, allocQ0, eqA, secTransactCore,
     secOutlay, isZero, absA, Node.weight, StratData.adjust,
-    Ex.cfg, Ex.sec, Ex.sub, Ex.comm, Except.bind, Except.map, bind, pure, Except.pure]
+    LEx.cfg, LEx.sec, LEx.sub, LEx.comm, Except.bind, Except.map, bind, pure, Except.pure]
 
 /-- `allocate` on the root: the debit and the credit hit the same node and cancel
     (`capital + (−a) + a = capital`, likewise `net_flows`), so the root's capital and fees move only by what
@@ -219,11 +219,11 @@ theorem opAllocate_root_books (cfg : Cfg K) (sd : StratData K) (kids : List (Nod
   · rw [hsd, foldl_adjust_nonflow L _ hnf]
   · rw [hsd, foldl_adjust_nonflow L _ hnf]
 
-example : ∃ w', opAllocate Ex.cfg { root := .strat Ex.strat [.sec Ex.sec], stale := false } [] (-1000) false
+example : ∃ w', opAllocate LEx.cfg { root := .strat LEx.strat [.sec LEx.sec], stale := false } [] (-1000) false
     = .ok w' := by
   norm_num [opAllocate, World.modify, modAt, allocKids, allocNode, secAllocate, secRefresh, secUpdate, secBaseUpdate, secEarly, allocQuantity, allocQ0,
     eqA, secTransactCore, secOutlay, isZero, absA, Node.weight, StratData.adjust,
-    Ex.cfg, Ex.sec, Ex.strat, Ex.comm, Except.bind, Except.map, bind, pure, Except.pure]
+    LEx.cfg, LEx.sec, LEx.strat, LEx.comm, Except.bind, Except.map, bind, pure, Except.pure]
 
 /-- After `update(d)` of a strategy the cash / fees / flows rows of date `d` hold the node's capital,
     `last_fee` and `net_flows` (and no other row moved); the update itself moves capital only by the coupons
@@ -257,11 +257,11 @@ theorem rows_cash_fees_flows (cfg : Cfg K) (d : Nat) (sd : StratData K) (kids : 
   · intro hd; rw [q2]; simp [hd]
   · intro hd; rw [q3]; simp [hd]
 
-example : ∃ n', updNode Ex.cfg 2 (.strat Ex.strat [.sec Ex.sec]) = .ok n' := by
+example : ∃ n', updNode LEx.cfg 2 (.strat LEx.strat [.sec LEx.sec]) = .ok n' := by
   norm_num [updNode, updKids, stratDateChange, sweepSec, secUpdate, secBaseUpdate, secEarly, secDateChange,
     secRecordPos, secMarkValue, secSetValue, secQuiet, secFlushOutlay, secRowBidoffer, accAdd, cell, eqA,
     stratWrite, stratChanged, stratSetTotals, mvReturn, stratSetPrice, stratRows, kidsWeights,
-    isZero, absA, Ex.cfg, Ex.sec, Ex.strat, Except.bind, Except.map, bind, pure, Except.pure]
+    isZero, absA, LEx.cfg, LEx.sec, LEx.strat, Except.bind, Except.map, bind, pure, Except.pure]
 
 /-- A trade on a security addressed through the tree is charged once, to the security's own parent: the
     parent books the (at most one) adjustment of `secTransact`, the security is replaced by the traded one,
@@ -292,10 +292,10 @@ theorem transact_charged_to_parent (cfg : Cfg K) (sd : StratData K) (kids : List
     obtain ⟨s1, _, h7⟩ := Except.bind_ok h5
     exact secTransactCore_adj_nonflow h7 a (by simp)
 
-example : ∃ w', opTransact Ex.cfg { root := .strat Ex.strat [.sec Ex.sec2, .sec Ex.sec], stale := false } [1] 2 false none
+example : ∃ w', opTransact LEx.cfg { root := .strat LEx.strat [.sec LEx.sec2, .sec LEx.sec], stale := false } [1] 2 false none
     = .ok w' := by
   norm_num [opTransact, World.modify, modAt, secTransact, secRefresh, eqA, secUpdate, secBaseUpdate, secEarly, secTransactCore, secOutlay, isZero, absA,
-    Ex.cfg, Ex.sec, Ex.strat, Ex.comm, Except.bind, Except.map, bind, pure, Except.pure]
+    LEx.cfg, LEx.sec, LEx.strat, LEx.comm, Except.bind, Except.map, bind, pure, Except.pure]
 
 /-- … and to nobody else: for an operation `f` applied two or more levels down (`i :: j :: rest`), the
     node at the top of the path keeps its data unchanged (no adjustment reaches it) and only its `i`-th
@@ -331,7 +331,7 @@ theorem deep_op_frame (f : Option (StratData K) → Node K → Except Err (OpRes
     exact ⟨rfl, k, k', rfl, h1, rfl⟩
 
 example : ∃ r, modAt (fun _ n => pure (n, [({ amount := 1, fee := 0, flow := false } : Adj Rat)], false)) [0, 0] none
-    (.strat Ex.strat [.strat Ex.sub [.sec Ex.sec2]]) = .ok r := by
+    (.strat LEx.strat [.strat LEx.sub [.sec LEx.sec2]]) = .ok r := by
   simp [modAt, Except.map, pure, Except.pure]
 
 /-- The ledger equation for one `allocate(amount)` received by a sub-strategy standing on date `d`:
@@ -357,11 +357,11 @@ theorem allocate_ledger (cfg : Cfg K) (pn : Option Nat) (comm : K → K → K) (
   simp only [stratW, StratData.adjust] at e1
   linear_combination e1
 
-example : ∃ n' adjs, Ex.sub.now = some 1 ∧ rowsOK 1 ([.sec { Ex.sec with weight := 1 }] : List (Node Rat)) ∧
-    allocNode Ex.cfg (some 1) Ex.comm (-300) (.strat Ex.sub [.sec { Ex.sec with weight := 1 }]) = .ok (n', adjs) := by
+example : ∃ n' adjs, LEx.sub.now = some 1 ∧ rowsOK 1 ([.sec { LEx.sec with weight := 1 }] : List (Node Rat)) ∧
+    allocNode LEx.cfg (some 1) LEx.comm (-300) (.strat LEx.sub [.sec { LEx.sec with weight := 1 }]) = .ok (n', adjs) := by
   norm_num [allocNode, allocKids, secAllocate, secRefresh, secUpdate, secBaseUpdate, secEarly, allocQuantity, allocQ0,
     eqA, secTransactCore, secOutlay, isZero, absA, Node.weight, StratData.adjust, rowsOK,
-    Ex.cfg, Ex.sec, Ex.sub, Ex.comm, Except.bind, Except.map, bind, pure, Except.pure]
+    LEx.cfg, LEx.sec, LEx.sub, LEx.comm, Except.bind, Except.map, bind, pure, Except.pure]
 
 /-- … and at the root, where nothing is received (debit and credit cancel):
     `Δcash = − Δ(outlays of own securities) − Δ(fees) − capital passed to sub-strategies`. -/
@@ -388,10 +388,10 @@ theorem allocate_ledger_root (cfg : Cfg K) (sd : StratData K) (kids : List (Node
   simp only [stratW] at e1
   linear_combination e1
 
-example : ∃ w', Ex.strat.now = some 1 ∧ rowsOK 1 ([.sec Ex.sec] : List (Node Rat)) ∧
-    opAllocate Ex.cfg { root := .strat Ex.strat [.sec Ex.sec], stale := false } [] (-1000) false = .ok w' := by
+example : ∃ w', LEx.strat.now = some 1 ∧ rowsOK 1 ([.sec LEx.sec] : List (Node Rat)) ∧
+    opAllocate LEx.cfg { root := .strat LEx.strat [.sec LEx.sec], stale := false } [] (-1000) false = .ok w' := by
   norm_num [opAllocate, World.modify, modAt, allocKids, allocNode, secAllocate, secRefresh, secUpdate, secBaseUpdate,
     secEarly, allocQuantity, allocQ0, eqA, secTransactCore, secOutlay, isZero, absA, Node.weight, StratData.adjust,
-    rowsOK, Ex.cfg, Ex.sec, Ex.strat, Ex.comm, Except.bind, Except.map, bind, pure, Except.pure]
+    rowsOK, LEx.cfg, LEx.sec, LEx.strat, LEx.comm, Except.bind, Except.map, bind, pure, Except.pure]
 
 end Bt.C07
